@@ -1598,7 +1598,11 @@ struct W1
       if (c.how == "terminate")
         return faulted ? "C18,C06" : "C18";
       if (c.how == "hang")
-        return faulted ? "C06,C01" : "C01";
+      {
+        const bool range = c.op.kind == OP_INS_RANGE || c.op.kind == OP_ASSIGN_RANGE || c.op.kind == OP_APPEND_RANGE
+                        || c.op.kind == OP_CTOR_RANGE;
+        return range ? (faulted ? "C15,C06,C01" : "C15,C01") : (faulted ? "C06,C01" : "C01");
+      }
       std::string p = ET::hooked ? "C03,C02" : "C13,C03,C02";
       if (faulted) p += ",C06";
       return p;
